@@ -171,6 +171,9 @@ def _(u):
     obj = u.obj(BL, "WarmupBaseline", baseline=inner, warmup_baseline=warm, alpha=alpha, n_epochs=u.scalar("n_epochs", "i"))
     u.inline((BL, "ExponentialBaseline.eval"))
     v, l = u.run(BL, "WarmupBaseline.eval", None, r, None, selfobj=obj, record=False)
+    u.native("rl.warmup_baseline")
+    u.native_out("value", v)
+    u.native_out("loss", l)
     vw = beta * v0 + (1 - beta) * mean_r
     u.prove("warmup.value", _scalar(v) == alpha * vb + (1 - alpha) * vw, tags=("C20", "C16"))
     u.prove("warmup.loss", _scalar(l) == alpha * lb + (1 - alpha) * 0, tags=("C20", "C16"))
@@ -380,6 +383,202 @@ def _(u):
     u.prove("pomo.best-of-own-copies.witness-range", AND(is_ >= 0, is_ < A, js2 >= 0, js2 < S))
     u.prove("pomo.best-of-own-copies.dominates", z3.ForAll([j, ia], z3.Implies(
         z3.And(j >= 0, j < S, ia >= 0, ia < A), rew.at(row(j, ia, b)) <= out["max_aug_reward"].at(b))))
+    # two links, each a one-step argument, then their composition
+    u.prove("pomo.best-of-own-copies.link-aug", out["max_aug_reward"].at(b) == out["max_reward"].at(b, is_), assume=True)
+    u.prove("pomo.best-of-own-copies.link-start", out["max_reward"].at(b, is_) == rew.at(row(js2, is_, b)), assume=True)
     u.prove("pomo.best-of-own-copies.reward", out["max_aug_reward"].at(b) == rew.at(row(js2, is_, b)))
     u.prove("pomo.best-of-own-copies.actions", out["best_aug_actions"].at(b, t) == acts.at(row(js2, is_, b), t))
-    u.canary("pomo.best-of-any-instance", z3.ForAll([j], z3.Implies(z3.And(j >= 0, j < S * A * B), rew.at(j) <= out["max_aug_reward"].at(b))))
+    u.canary("pomo.best-is-first-augmentation", out["max_aug_reward"].at(b) == out["max_reward"].at(b, 0))
+
+
+# ---------------------------------------------------------------------------------------------
+# C16: PPO mini-batch loss (clipped-ratio surrogate + value + entropy terms)
+# ---------------------------------------------------------------------------------------------
+PPO = "rl4co/models/rl/ppo/ppo.py"
+
+
+@unit("ppo.shared_step.minibatch_loss", file=PPO, func="PPO.shared_step", props=("C16",))
+def _(u):
+    from tvc.methods import NoGrad  # noqa: F401
+
+    M, T = u.dims("M T")          # M = rows of the (single) mini-batch, T = decoding steps
+    eps, vf, el = u.scalar("clip_range", "f"), u.scalar("vf_lambda", "f"), u.scalar("entropy_lambda", "f")
+    u.requires(AND(eps > 0, eps < 1))
+    old_ll = u.tensor("old_log_likelihood", (M,), "f")
+    rew = u.tensor("rollout_reward", (M,), "f")
+    acts = u.tensor("rollout_actions", (M, T), "i")
+    new_ll = u.tensor("new_step_log_likelihood", (M, T), "f")
+    ent = u.tensor("new_entropy", (M,), "f")
+    val = u.tensor("value_pred", (M, 1), "f")
+    new_ll.requires_grad = True
+    ent.requires_grad = True
+    val.requires_grad = True
+    td0 = SymTD({"locs": u.tensor("locs", (M, 3, 2), "f")}, (M,))
+    calls = []
+
+    def policy(td, env=None, phase=None, actions=None, return_entropy=False, return_sum_log_likelihood=True):
+        calls.append(actions)
+        if actions is None:   # rollout (the real code runs it under torch.no_grad)
+            from tvc.core import cur as _cur
+            g = getattr(_cur(), "no_grad_depth", 0) > 0
+            r, l = rew.snap_tensor() if hasattr(rew, "snap_tensor") else rew, old_ll
+            return {"reward": rew, "log_likelihood": old_ll, "actions": acts}
+        return {"log_likelihood": new_ll, "entropy": ent, "reward": rew, "actions": actions}
+
+    class _DS:
+        def __init__(self, td):
+            self.td = td
+
+        def collate_fn(self, items):
+            return items
+
+    captured = {}
+    opt = u.ns(zero_grad=lambda: None, step=lambda: None)
+    obj = u.obj(PPO, "PPO", env=u.ns(reset=lambda batch: td0, dataset_cls=lambda td: u.ns(td=td, collate_fn=None)),
+                policy=policy, critic=lambda td: val,
+                ppo_cfg={"clip_range": eps, "ppo_epochs": 1, "mini_batch_size": 1.0, "vf_lambda": vf, "entropy_lambda": el,
+                         "normalize_adv": False, "max_grad_norm": None},
+                optimizers=lambda: opt, manual_backward=lambda loss: captured.__setitem__("loss", loss),
+                log_metrics=lambda out, phase, dataloader_idx=None: {"_out": out})
+    # DataLoader (assumed contract A9): here ONE mini-batch holding the whole roll-out batch in order
+    u.stub(DataLoader=lambda dataset, batch_size=None, shuffle=False, collate_fn=None: [dataset.td])
+    from tvc.unit import on_reduction
+
+    reds = []
+    on_reduction(u, "", reds.append)
+    res = u.run(PPO, "PPO.shared_step", {}, 0, "train", selfobj=obj, record=False)
+    out = res["_out"]
+    i = u.idx((M,), "i")
+    # sum of the new per-step log-probs of row k: the body's own reduction `ll.sum(dim=-1)` (checked to be that sum) or, unrolled, the explicit sum
+    own = [r for r in reds if r.kind == "sum" and r.outer_rank == 1]
+    if own:
+        kk = z3.Int("ppo.kk")
+        u.prove("ppo.llsum-is-the-step-sum", AND(zint(own[0].ns[0]) == zint(T), own[0].body((i,), (kk,)) == new_ll.at(i, kk)))
+        llsum_at = lambda k: own[0].app((k,))
+    else:
+        llsum = ops.reduce("sum", new_ll, 1, label="llsum")
+        llsum_at = lambda k: llsum.at(k)
+    ratio = lambda k: ops.UF["exp"](llsum_at(k) - old_ll.at(k))
+    adv = lambda k: rew.at(k) - val.at(k, 0)
+    smin, smax = (lambda a, b: ops.scalar_binop("min", a, b)), (lambda a, b: ops.scalar_binop("max", a, b))
+    clip = lambda x: smin(smax(x, 1 - eps), 1 + eps)                       # clamp(x, 1 - eps, 1 + eps)
+    term = lambda k: smin(ratio(k) * adv(k), clip(ratio(k)) * adv(k))      # pessimistic (lower) of the two surrogates
+    sur = ops.reduce("sum", mk((M,), "f", lambda I: term(I[0])), 0, label="sur")
+    d = lambda k: val.at(k, 0) - rew.at(k)
+    hub = lambda k: z3.If(z3.And(d(k) <= 1, d(k) >= -1), d(k) * d(k) / 2, z3.If(d(k) >= 0, d(k), -d(k)) - zreal(0.5))
+    hs = ops.reduce("sum", mk((M,), "f", lambda I: hub(I[0])), 0, label="hub")
+    es = ops.reduce("sum", ent, 0, label="ent")
+    Mr = z3.ToReal(zint(M))
+    u.prove("ppo.loss.is-scalar", AND(out["loss"].rank == 0, out["surrogate_loss"].rank == 0, out["value_loss"].rank == 0))
+    u.prove("ppo.surrogate", _scalar(out["surrogate_loss"]) == -(sur.at() / Mr))
+    u.prove("ppo.value_loss", _scalar(out["value_loss"]) == hs.at() / Mr)
+    u.prove("ppo.loss", _scalar(out["loss"]) == _scalar(out["surrogate_loss"]) + vf * _scalar(out["value_loss"]) - el * (es.at() / Mr))
+    u.prove("ppo.backward-on-total-loss", captured.get("loss") is out["loss"])
+    u.prove("ppo.evaluates-stored-actions", len(calls) == 2 and calls[0] is None and calls[1] is not None)
+    u.prove("ppo.loss-has-gradient", out["loss"].requires_grad)
+    u.canary("ppo.unclipped", _scalar(out["surrogate_loss"]) == -(ops.reduce("sum", mk((M,), "f", lambda I: ratio(I[0]) * adv(I[0])), 0, label="unc").at() / Mr))
+
+
+# ---------------------------------------------------------------------------------------------
+# C16: SymNCO loss functions (shared baselines along one axis of the regrouped [B, S, A] tensors)
+# ---------------------------------------------------------------------------------------------
+SYL = "rl4co/models/zoo/symnco/losses.py"
+
+
+def _sym_loss(u, fn, axis):
+    from tvc.unit import on_reduction
+
+    B = u.dim("B")
+    S, A = u.dim("S", 2), u.dim("A", 2)
+    rew = u.tensor("reward", (B, S, A), "f")
+    ll = u.tensor("log_likelihood", (B, S, A), "f")
+    ll.requires_grad = True
+    reds = []
+    on_reduction(u, "", reds.append)
+    loss = u.run(SYL, fn, rew, ll)
+    u.prove("symloss.is-scalar", isinstance(loss, SymTensor) and loss.rank == 0)
+    u.prove("symloss.has-gradient", loss.requires_grad)
+    u.canary("symloss.zero", _scalar(loss) == 0)
+    sums = [r for r in reds if r.kind == "sum"]
+    if u.mode != "sym" or len(sums) != 4:
+        # unrolled (concrete) run: the explicit reference
+        Sr, Ar = (S, A)
+        n = (S, A)[axis - 1]
+        def base(b, s, a):
+            tot = 0
+            for k in range(n):
+                tot = tot + (rew.at(b, k, a) if axis == 1 else rew.at(b, s, k))
+            return tot / zreal(n)
+        tot = 0
+        for b in range(B):
+            for s_ in range(S):
+                for a in range(A):
+                    tot = tot + (rew.at(b, s_, a) - base(b, s_, a)) * ll.at(b, s_, a)
+        # the same explicit clause under the names of the symbolic run's clauses: a refuted symbolic clause gets its
+        # concrete, replayable counterexample from here
+        for nm in ("symloss.baseline-is-mean-over-starts" if axis == 1 else "symloss.baseline-is-mean-over-augmentations",
+                   "symloss.summand", "symloss.sum-over-starts", "symloss.sum-over-instances", "symloss.value"):
+            u.prove(nm, _scalar(loss) == -(tot / zreal(B * S * A)))
+        return
+    # symbolic run: the loss is characterised through the body's own four reductions, each the sum of its summand over its
+    # range by definition: (1) baseline sum over the chosen axis, (2)-(4) the three nested sums of -advantage * log-likelihood
+    r_base, r2, r1, r0 = sums
+    b, s_, a, k = u.idx((B,), "b"), u.idx((S,), "s"), u.idx((A,), "a"), z3.Int("symloss.k")
+    n_axis = (S, A)[axis - 1]
+    if axis == 1:
+        u.prove("symloss.baseline-is-mean-over-starts", AND(zint(r_base.ns[0]) == zint(S), r_base.body((b, a), (k,)) == rew.at(b, k, a)))
+        adv = rew.at(b, s_, a) - r_base.app((b, a)) / z3.ToReal(zint(S))
+    else:
+        u.prove("symloss.baseline-is-mean-over-augmentations", AND(zint(r_base.ns[0]) == zint(A), r_base.body((b, s_), (k,)) == rew.at(b, s_, k)))
+        adv = rew.at(b, s_, a) - r_base.app((b, s_)) / z3.ToReal(zint(A))
+    u.prove("symloss.summand", AND(zint(r2.ns[0]) == zint(A), r2.body((b, s_), (a,)) == -adv * ll.at(b, s_, a)))
+    u.prove("symloss.sum-over-starts", AND(zint(r1.ns[0]) == zint(S), r1.body((b,), (s_,)) == r2.app((b, s_))))
+    u.prove("symloss.sum-over-instances", AND(zint(r0.ns[0]) == zint(B), r0.body((), (b,)) == r1.app((b,))))
+    u.prove("symloss.value", _scalar(loss) == r0.app(()) / (z3.ToReal(zint(B)) * z3.ToReal(zint(S)) * z3.ToReal(zint(A))))
+
+
+@unit("symnco.problem_symmetricity_loss", file=SYL, func="problem_symmetricity_loss", props=("C16",))
+def _(u):
+    _sym_loss(u, "problem_symmetricity_loss", 1)
+
+
+@unit("symnco.solution_symmetricity_loss", file=SYL, func="solution_symmetricity_loss", props=("C16",))
+def _(u):
+    _sym_loss(u, "solution_symmetricity_loss", 2)
+
+
+@unit("rl.reinforce.shared_step", file=RF, func="REINFORCE.shared_step", props=("C16",))
+def _(u):
+    # glue of REINFORCE / A2C (A2C = REINFORCE with the critic baseline): the training loss returned by the step is
+    # the one calculate_loss computes from THIS batch's roll-out, the roll-out is not best-of-k filtered in training
+    B = u.dim("B")
+    rew = u.tensor("policy_reward", (B,), "f")
+    ll = u.tensor("policy_ll", (B,), "f")
+    ll.requires_grad = True
+    val = u.tensor("critic_value", (B, 1), "f")
+    val.requires_grad = True
+    td0 = SymTD({"locs": u.tensor("locs", (B, 3, 2), "f")}, (B,))
+    seen = {}
+
+    def policy(td, env, phase=None, select_best=None):
+        seen["select_best"] = select_best
+        return {"reward": rew, "log_likelihood": ll}
+
+    for phase in ("train", "val"):
+        obj = u.obj(RF, "REINFORCE", env=u.ns(reset=lambda batch: td0), policy=policy,
+                    baseline=u.obj(BL, "CriticBaseline", critic=lambda x: val), advantage_scaler=u.obj(UT, "RewardScaler", scale=None),
+                    log_metrics=lambda out, phase, dataloader_idx=None: {"_out": out})
+        u.inline((RF, "REINFORCE.calculate_loss"), (BL, "CriticBaseline.eval"), (UT, "RewardScaler.__call__"))
+        res = u.run(RF, "REINFORCE.shared_step", {}, 0, phase, selfobj=obj, record=False)
+        if phase == "train":
+            i = z3.Int("a2c.i")
+            adv = mk((B,), "f", lambda I: (rew.at(I[0]) - val.at(I[0], 0)) * ll.at(I[0]))
+            mse = mk((B,), "f", lambda I: (val.at(I[0], 0) - rew.at(I[0])) * (val.at(I[0], 0) - rew.at(I[0])))
+            Br = z3.ToReal(zint(B))
+            u.prove("a2c.loss", _scalar(res["loss"]) == -(ops.reduce("sum", adv, 0, label="a2c.adv").at() / Br) + ops.reduce("sum", mse, 0, label="a2c.mse").at() / Br)
+            u.prove("a2c.train-rollout-not-filtered", seen["select_best"] is False)
+            u.prove("a2c.loss-has-gradient", res["loss"].requires_grad)
+            u.canary("a2c.no-critic-loss", _scalar(res["loss"]) == -(ops.reduce("sum", adv, 0, label="a2c.adv2").at() / Br))
+        else:
+            u.prove("eval.no-loss", res["loss"] is None)
+            u.prove("eval.best-of-k", seen["select_best"] is True)
